@@ -23,7 +23,14 @@ import Reduino.GenOb.Ops
   semantics on unbounded ints; `& | ^` of two bools is a bool), `//` and `%` (Python: floor / sign of the divisor,
   ZeroDivisionError on a zero divisor), `abs(e)`, `min(a, b)` / `max(a, b)` over int-typed operands (C side: the
   Arduino macros, with the overflow check on the negation inside `abs`), unary minus, comparisons, and/or/not,
-  conditional expressions.  The operator tokens `Render` prints are tied to the transpiler's `_BIN`/`_UN`/`_CMP` tables by the
+  conditional expressions.
+  Statements (W5): tuple (parallel) assignment `x0, x1, … = e0, e1, …` to names already declared with the types of the right-hand
+  sides, at top level, in nested blocks and in the main loop: Python evaluates every right-hand side in the old store and then binds the
+  targets left to right (`Py.evalList`, `Store.setAll`); the sketch declares one block-scoped temporary `__tmp_assign_N` per
+  right-hand side (N from the counter the parser threads through the whole script: `Stmt.tmpEnd`, `Prog.numbered`) and then assigns
+  the targets from the temporaries (`C.declTemps`, `C.assignTemps`, `C.dropTemps`).  `C01_partial` and `C01_partial_promotion` cover it
+  (statements unchanged: `InF`/`InF2`, `tr`/`tr2` and both semantics gained the constructor).
+  The operator tokens `Render` prints are tied to the transpiler's `_BIN`/`_UN`/`_CMP` tables by the
   obligations of `GenOb/Ops.lean`.
 -/
 namespace Reduino.Props.C01
@@ -89,13 +96,16 @@ theorem break_in_main_loop_rejected (pre body : Stmt) (h : breaksOut body = true
         · obtain ⟨e, he⟩ := ihb hb te; rw [he]; exact ⟨e, rfl⟩
     | _ => intro hb; simp [breaksOut] at hb
   unfold tr
-  cases hacc : trTop {} pre with
-  | error e => exact ⟨e, rfl⟩
-  | ok acc =>
-    obtain ⟨e, he⟩ := key body h acc.te
-    refine ⟨e, ?_⟩
-    show (do let loop ← trNested acc.te true 0 body; pure _) = _
-    rw [he]; rfl
+  split
+  · unfold trCore
+    cases hacc : trTop {} pre with
+    | error e => exact ⟨e, rfl⟩
+    | ok acc =>
+      obtain ⟨e, he⟩ := key body h acc.te
+      refine ⟨e, ?_⟩
+      show (do let loop ← trNested acc.te true 0 body; pure _) = _
+      rw [he]; rfl
+  · exact ⟨_, rfl⟩
 
 /-- expression level: on well-typed expressions Python's value and C's value agree up to the declared-type
     conversion (the heart of the simulation) -/
@@ -236,7 +246,7 @@ theorem promoted_read_before_assignment :
     setup := .seq (.ifs (.cmp .gt (.var "c") (.int 0)) (.assign "x" (.int 5)) .skip) (.write (.bin .add (.var "x") (.int 0)))
     loop := .skip }
   have h : tr2 p = .ok c0 := by
-    simp [p, c0, tr2, trTop2, trTop, trChain2, trBody2, trNested, sortDecls, newDecls, addPromoted,
+    simp [p, c0, tr2, tr2Core, Prog.numbered, Stmt.numberedFrom, Stmt.tmpEnd, trTop2, trTop, trChain2, trBody2, trNested, sortDecls, newDecls, addPromoted,
       Reduino.Lemmas.C01p.sorted_single, inferTy, evalConst, Expr.nameFree, Py.eval, defaultOf, seqOf, List.lookup,
       bind, Except.bind, pure, Except.pure, Except.toOption]
   exact ⟨by rfl, c0, h, by rfl⟩
@@ -253,9 +263,42 @@ example :
       Py.run p 2 80 = .ok [.write 7, .write 8, .write 9] := by
   intro p
   have h : ∃ c, tr2 p = .ok c ∧ c.globals.map (·.1) = ["c", "abe", "zed", "s"] := by
-    simp [p, tr2, trTop2, trTop, trChain2, trBody2, trNested, sortDecls, newDecls, addPromoted,
+    simp [p, tr2, tr2Core, Prog.numbered, Stmt.numberedFrom, Stmt.tmpEnd, trTop2, trTop, trChain2, trBody2, trNested, sortDecls, newDecls, addPromoted,
       Reduino.Lemmas.C01p.sorted_single, Reduino.Lemmas.C01p.sorted_zed_abe, inferTy, evalConst, Expr.nameFree, Py.eval,
       defaultOf, seqOf, List.lookup, foldArg, bind, Except.bind, pure, Except.pure, Except.toOption]
   exact ⟨by decide, by decide, h, by rfl⟩
+
+/-- non-vacuity (W5): tuple assignment at top level, inside a `for` body (three targets, one of them bool) and in the main loop —
+    a Fibonacci-style update; the program is in the fragment, is accepted (temporaries numbered 0,1 / 2,3,4 / 5,6 by the threaded
+    counter), and both semantics run it to the same trace -/
+example :
+    let p : Prog :=
+      { pre := .seq (.assign "a" (.int 0)) (.seq (.assign "b" (.int 1)) (.seq (.assign "f" (.bool false))
+            (.seq (.tuple 0 ["a", "b"] [.var "b", .bin .add (.var "a") (.var "b")])
+             (.forRange "i" (.int 2)
+                (.tuple 2 ["a", "b", "f"] [.var "b", .bin .add (.var "a") (.int 1), .cmp .lt (.var "a") (.var "b")]))))),
+        body := some (.seq (.tuple 5 ["a", "b"] [.var "b", .bin .add (.var "a") (.var "b")]) (.write (.var "a"))) }
+    InF p = true ∧ Py.run p 3 60 = .ok [.write 2, .write 4, .write 6] ∧
+      (∃ c, tr p = .ok c ∧ C.run c 3 60 = .ok [.write 2, .write 4, .write 6] ∧
+        c.loop.lines = ["int __tmp_assign_5 = b;", "int __tmp_assign_6 = (a + b);", "a = __tmp_assign_5;", "b = __tmp_assign_6;",
+          "Serial.println(a);"]) := by
+  intro p
+  exact ⟨by decide +kernel, by rfl, _, rfl, by rfl, by decide +kernel⟩
+
+/-- a swap is a swap: Python binds the targets after evaluating both right-hand sides; the sketch goes through the temporaries -/
+example :
+    let p : Prog := { pre := .seq (.assign "a" (.int 1)) (.seq (.assign "b" (.int 2))
+                        (.seq (.tuple 0 ["a", "b"] [.var "b", .var "a"]) (.seq (.write (.var "a")) (.write (.var "b"))))), body := none }
+    InF p = true ∧ Py.run p 0 50 = .ok [.write 2, .write 1] ∧ (∃ c, tr p = .ok c ∧ C.run c 0 50 = .ok [.write 2, .write 1]) := by
+  intro p
+  exact ⟨by decide +kernel, by rfl, _, rfl, by rfl⟩
+
+/-- a program whose stored temporary numbers are not the parser's is not a translation unit of the model -/
+example : tr { pre := .seq (.assign "a" (.int 1)) (.seq (.assign "b" (.int 2)) (.tuple 7 ["a", "b"] [.var "b", .var "a"])), body := none }
+    = .error .outsideFragment := by rfl
+
+/-- a first assignment by tuple (the all-new-at-global-scope form, or the local declarations of finding F17) is outside the model -/
+example : tr { pre := .seq (.assign "a" (.int 1)) (.tuple 0 ["a", "b"] [.int 2, .var "a"]), body := none }
+    = .error .outsideFragment := by rfl
 
 end Reduino.Props.C01
